@@ -38,6 +38,8 @@ pub fn keepalive(out: &mut Out, count: u64) {
         cfg.ka = ka;
         let mut d = Drv::new(&cfg, out.rng(idx));
         d.split_rx = false;
+        // Writes complete without delay: never let time pass over a pending write or flush.
+        d.settle_writes = true;
         d.connect(&ConnSpec::with(connack(ska)));
         let mut reconnects = 0;
         let mut pings = 0;
@@ -152,7 +154,7 @@ pub fn keepalive(out: &mut Out, count: u64) {
                         break;
                     }
                     // The PINGREQ is waiting for its write decision.
-                    if d.rng.pct(25) {
+                    if d.rng.pct(25) && d.suspended() && d.pend == Some('w') {
                         d.x("d 1");
                     }
                     d.go();
